@@ -139,6 +139,8 @@ struct Fixed {
     plain: Ctx,
     english: Ctx,
     ansi: Ctx,
+    /// old vowel-sign order on: emoticons are typed after an erased word of waiting signs
+    karorder: Ctx,
 }
 
 fn mk_fixed(layout: Layout, kar: bool) -> Fixed {
@@ -151,6 +153,7 @@ fn mk_fixed(layout: Layout, kar: bool) -> Fixed {
         plain: Ctx::new(Opts::parse(&format!("{base}{k}")), &sb).unwrap(),
         english: created_under_ansi(Opts::parse(&format!("{base}{k}e")), &sb),
         ansi: Ctx::new(Opts::parse(&format!("{base}{k}a")), &sb).unwrap(),
+        karorder: Ctx::new(Opts::parse(&format!("{base}{k}oe")), &sb).unwrap(),
         _sb: sb,
     }
 }
@@ -172,6 +175,29 @@ fn fixed_type(ctx: &Ctx, ks: &[(u16, u8)], case: &dyn Fn() -> Value) -> Result<(
 
 fn fixed_entry(run: &Run, lo: &Fixed, st: &mut Stats, name: &str, emojis: &[String], is_emoticon: bool, wrap: (&str, &str)) -> Result<(), Failure> {
     let text = format!("{}{}{}", wrap.0, name, wrap.1);
+    if is_emoticon {
+        // the emoticon is looked up on the raw keys of THIS word: words erased before must not count
+        let ctx = &lo.karorder;
+        let case = || json!({"method": format!("{:?}", lo.layout), "opts": ctx.opts.letters(), "text": text, "entry": name, "emoticon": true, "wrap": ["", ""], "english": true, "after_erased_waiting_signs": true});
+        let pf = |p: crate::driver::PanicInfo| Failure::new(panic_kind(&p), p.to_string(), case());
+        for pre in [vec!['i', '['], vec!['k', 'i'], vec!['[', 'k', '/']] {
+            ctx.finish().map_err(pf)?;
+            for c in &pre {
+                ctx.ch(*c, 0).map_err(pf)?;
+            }
+            for _ in 0..6 {
+                if ctx.backspace(false).map_err(pf)?.is_empty() {
+                    break;
+                }
+            }
+            let r = ctx.type_text(&text).map_err(pf)?.unwrap();
+            ctx.finish().map_err(pf)?;
+            if !r.lonely && !emojis.iter().all(|e| r.cands.contains(e)) {
+                return Err(Failure::new("emoji-missing", format!("{:?}, old vowel-sign order, emoticon {text:?} typed after the erased word {pre:?}: its emoji is not offered; list {:?}", lo.layout, r.cands), case()));
+            }
+        }
+        st.count("emoticons-after-erased-words", 1);
+    }
     let ks = if is_emoticon { Some(text.chars().map(|c| (keys().code_for(c), 0u8)).collect::<Vec<_>>()) } else { keys_for_word(&lo.inv, &text) };
     let ks = match ks {
         Some(k) => k,
